@@ -1,0 +1,36 @@
+//go:build verif
+
+// Safety-sweep contracts (no explicit panic, index/slice in range, allocation
+// sizes non-negative, wire-decoded pointers checked before use) for functions
+// that need no precondition. Generated from a zero-annotation sweep; checked by
+// /verif/govc. Comment-only file.
+package serviceinfo
+
+//@ func serviceinfo.Devmod.Validate
+//@   props C10(sweep)
+//@   sweep bounds,panic,make,nilmem,div
+
+//@ func serviceinfo.Devmod.Write
+//@   props C10(sweep)
+//@   sweep bounds,panic,make,nilmem,div
+
+//@ func serviceinfo.Devmod.writeDescriptorMessages
+//@   props C10(sweep)
+//@   sweep bounds,panic,make,nilmem,div
+
+//@ func serviceinfo.Devmod.writeModuleMessages
+//@   props C10(sweep)
+//@   sweep bounds,panic,make,nilmem,div
+
+//@ func serviceinfo.DevmodModulesChunk.MarshalCBOR
+//@   props C10(sweep)
+//@   sweep bounds,panic,make,nilmem,div
+
+//@ func serviceinfo.Producer.Available
+//@   props C10(sweep)
+//@   sweep bounds,panic,make,nilmem,div
+
+//@ func serviceinfo.Producer.WriteChunk
+//@   props C10(sweep)
+//@   sweep bounds,panic,make,nilmem,div
+
